@@ -2,8 +2,8 @@
     Statements only.  The theorems hold for EVERY arithmetic [A], hence for the binary64 instance of the model that the
     correspondence check compares bit for bit with gearpy, for every chain, load function, rule set and every sequence
     of run / continue / early stop / reset / new solver / duty-cycle changes that returns. *)
-From Coq Require Import ZArith String List Bool PrimFloat.
-From GP Require Import ArithDef FloatUtil UnitsCore PyUnits QOps Motor Solver SolverProofs Examples.
+From Coq Require Import ZArith String List Bool PrimFloat Reals.
+From GP Require Import ArithDef FloatUtil UnitsCore PyUnits RealArith UnitsR QOps Motor Solver SolverProofs SolverSI ChainSI Examples.
 Import ListNotations.
 
 (** [linked q_rmul ratios l]: l[i] = ratio[i+1] * l[i+1] for every adjacent pair (the Python expression of the solver),
@@ -21,6 +21,22 @@ Theorem C01_linked_means : forall (A : Arith) rs (x : qty A) l, back_prop rs x =
   linked q_rmul rs l /\ lastq l = Ok x /\ length l = S (length rs).
 Proof. exact (@back_prop_spec). Qed.
 
+(** end to end, in SI, whatever the units the quantities are recorded in (over the reals): the motor's position is the output element's
+    times the product [Rr c] of all gear ratios; likewise speed and acceleration at every instant that is not held *)
+Theorem C01_position_end_to_end : forall (c : @chain RA) load ops p w st t s xl X,
+  exec c load ops (initial p w) = Ok st -> In (t, s) (y_hist st) -> lastq (s_pos s) = Ok xl -> si xl = Ok X ->
+  exists x0, headq (s_pos s) = Ok x0 /\ si x0 = Ok (Rr c * X)%R.
+Proof. exact kinematics_end_to_end. Qed.
+Theorem C01_speed_end_to_end : forall (c : @chain RA) load ops p w st t s xl X,
+  exec c load ops (initial p w) = Ok st -> In (t, s) (y_hist st) -> s_locked s = false -> lastq (s_spd s) = Ok xl -> si xl = Ok X ->
+  exists x0, headq (s_spd s) = Ok x0 /\ si x0 = Ok (Rr c * X)%R.
+Proof. exact speed_end_to_end. Qed.
+Theorem C01_acceleration_end_to_end : forall (c : @chain RA) load ops p w st t s xl X,
+  exec c load ops (initial p w) = Ok st -> In (t, s) (y_hist st) -> s_locked s = false -> lastq (s_acc s) = Ok xl -> si xl = Ok X ->
+  exists x0, headq (s_acc s) = Ok x0 /\ si x0 = Ok (Rr c * X)%R.
+Proof. exact acceleration_end_to_end. Qed.
+Theorem C01_Rr_is_the_product : forall c : @chain RA, Rr c = fold_right Rmult 1%R (map e_ratio (c_elems c)).
+Proof. reflexivity. Qed.
 (** non-vacuity: a 3-element self-locking worm train run, continued with another step; 21 recorded instants, 7 of them held *)
 Example C01_nonvacuous :
   Nat.eqb (hist_len (ex_final true 5)) 21 && Nat.eqb (count_locked (ex_final true 5)) 7 && moved (ex_final true 5) = true.
